@@ -91,11 +91,12 @@ def prune(keep_hash):
             ents.append((os.path.getmtime(p), e))
     ents.sort(reverse=True)
     kept = 0
-    for _, e in ents:
+    now = time.time()
+    for mt, e in ents:
         if e == keep_hash:
             continue
         kept += 1
-        if kept >= KEEP:
+        if kept >= KEEP and now - mt > 5400:   # never delete a tree another running check may still be using
             shutil.rmtree(os.path.join(CACHE, e), ignore_errors=True)
 
 
@@ -210,8 +211,9 @@ def ensure(variants, backends=None):
         os.utime(os.path.join(CACHE, th))
         sh = "sim-" + sim_hash()
         for e in os.listdir(os.path.join(CACHE, th)):
-            if e.startswith("sim-") and e != sh:
-                shutil.rmtree(os.path.join(CACHE, th, e), ignore_errors=True)
+            pe = os.path.join(CACHE, th, e)
+            if e.startswith("sim-") and e != sh and time.time() - os.path.getmtime(pe) > 5400:
+                shutil.rmtree(pe, ignore_errors=True)
         out = {}
         for v in variants:
             for b in backends:
